@@ -537,6 +537,11 @@ func (r *result) adjustArgs(args []string, plugin string) error {
 	create, id := r.request.create, r.request.create.Container.Id
 
 	if args[0] == "" {
+		if len(args) == 1 {
+			// a lone marker carries no command line to set: like an
+			// empty args list, it requests no change
+			return nil
+		}
 		r.owners.clearArgs(id)
 		args = args[1:]
 	}
